@@ -896,3 +896,12 @@ CORPUS += [
     V("C03", "mdcpdp-open-mode-return-leg-strict", _MD, '(current_node < num_depot) & (td["current_node"] >= num_depot),', '(current_node < num_depot) & (td["current_node"] > num_depot),', "C03.d"),
     V("C03", "mdcpdp-open-mode-guard-inverted", _MD, 'if self.problem_mode == "open":', 'if self.problem_mode != "open":', "C03.d"),
 ]
+
+_FL = "rl4co/envs/graph/flp/env.py"
+CORPUS += [
+    V("C03", "flp-reward-rank-left-to-gather", _FL, "            .view(batch_size_, -1, n_points_)\n            .min(1)", "            .min(1)", "C03.e"),
+    V("C03", "eq-flp-reward-reshape", _FL, "            .view(batch_size_, -1, n_points_)\n            .min(1)", "            .reshape(batch_size_, -1, n_points_)\n            .min(dim=1)", None),
+    V("C03", "mtsp-closing-leg-after-max-update", _MT,
+      "        # At the step that finishes the instance, we add the distance from the current_node to the depot as well\n        current_length = torch.where(\n            done & ~was_done,\n            current_length + get_distance(cur_loc, depot_loc),\n            current_length,\n        )\n\n        # We update the max_subtour_length and reset the current_length\n        max_subtour_length = torch.where(\n            current_length > td[\"max_subtour_length\"],\n            current_length,\n            td[\"max_subtour_length\"],\n        )\n",
+      "        # We update the max_subtour_length and reset the current_length\n        max_subtour_length = torch.where(\n            current_length > td[\"max_subtour_length\"],\n            current_length,\n            td[\"max_subtour_length\"],\n        )\n\n        current_length = torch.where(\n            done & ~was_done,\n            current_length + get_distance(cur_loc, depot_loc),\n            current_length,\n        )\n", "C03.d"),
+]
